@@ -1,5 +1,227 @@
 package main
 
+import (
+	"bytes"
+	"context"
+	"encoding/json"
+	"fmt"
+	"os"
+	"os/exec"
+	"path/filepath"
+	"sort"
+	"strings"
+	"syscall"
+	"time"
+
+	"verif/sim/simrt"
+)
+
+// Real-process cross-check of the os/exec stub (property C11): the plain
+// thriftgo binary built from /repo runs the real plugin binary built from
+// /verif/plugsim with a fault script; the simulated run of the same script
+// must agree on: exit status zero / non-zero, the set of files the plugin
+// contributed, and whether the plugin was killed.  Only timing-insensitive
+// cases are used (delay 0 or >= 20 x limit, limit 300 ms).  A disagreement is
+// exit 2 (the stub is wrong), not a violation.
+
+type xCase struct {
+	Name   string
+	Script map[string]interface{}
+	Limit  string // --plugin-time-limit
+	Second bool   // -g go -g fastgo
+}
+
+func c11xCases() []xCase {
+	str := func(s string) *string { return &s }
+	_ = str
+	healthy := []map[string]interface{}{{"name": "plug/notes.txt", "content": "hello from the plugin\n"}, {"name": "plug/more.txt", "content": "@@thriftgo_insertion_point(p)x\n"}, {"ip": "p", "content": "PATCH"}}
+	return []xCase{
+		{Name: "healthy", Script: map[string]interface{}{"files": healthy, "warnings": []string{"warn-one"}}},
+		{Name: "healthy-two-languages", Script: map[string]interface{}{"files": healthy}, Second: true},
+		{Name: "healthy-stderr", Script: map[string]interface{}{"files": healthy, "stderr": "some text on stderr\n"}},
+		{Name: "stdin-ignored", Script: map[string]interface{}{"read_stdin": 0, "warnings": []string{"did not read stdin"}}},
+		{Name: "error-set", Script: map[string]interface{}{"files": healthy, "error": "plugin says no"}},
+		{Name: "exit-3-after-output", Script: map[string]interface{}{"files": healthy, "exit": 3}},
+		{Name: "exit-1-no-output", Script: map[string]interface{}{"no_response": true, "exit": 1, "read_stdin": 0}},
+		{Name: "truncated", Script: map[string]interface{}{"files": healthy, "mangle": "truncate", "mangle_at": 17}},
+		{Name: "random-bytes", Script: map[string]interface{}{"files": healthy, "mangle": "random"}},
+		{Name: "empty-output", Script: map[string]interface{}{"files": healthy, "mangle": "empty"}},
+		{Name: "trailing-garbage", Script: map[string]interface{}{"files": healthy, "mangle": "append"}},
+		{Name: "slow-beyond-limit-before", Script: map[string]interface{}{"files": healthy, "delay_before_ns": int64(6 * time.Second)}, Limit: "300ms"},
+		{Name: "slow-beyond-limit-after", Script: map[string]interface{}{"files": healthy, "delay_after_ns": int64(6 * time.Second)}, Limit: "300ms"},
+		{Name: "fast-within-limit", Script: map[string]interface{}{"files": healthy}, Limit: "5s"},
+		{Name: "no-limit", Script: map[string]interface{}{"files": healthy, "delay_before_ns": int64(400 * time.Millisecond)}, Limit: "0"},
+	}
+}
+
+const xIDL = "include \"b.thrift\"\ninclude \"c.thrift\"\nnamespace go x.a\nstruct A { 1: b.B b, 2: c.C c }\nservice S { b.B f(1: c.C x) }\n"
+const xIDLb = "include \"c.thrift\"\nnamespace go x.b\nstruct B { 1: c.C c }\n"
+const xIDLc = "namespace go x.c\nstruct C { 1: i32 v }\n"
+
+type xOutcome struct {
+	ExitZero   bool
+	PluginFile []string // files contributed by the plugin that exist afterwards (relative to out)
+	Killed     bool
+	Detail     string
+}
+
+func (o xOutcome) key() string {
+	return fmt.Sprintf("exit0=%v files=%v killed=%v", o.ExitZero, o.PluginFile, o.Killed)
+}
+
+func xReal(a *artefacts, xc xCase, compress bool) (xOutcome, error) {
+	d := tmpDir()
+	defer os.RemoveAll(d)
+	os.WriteFile(filepath.Join(d, "a.thrift"), []byte(xIDL), 0o644)
+	os.WriteFile(filepath.Join(d, "b.thrift"), []byte(xIDLb), 0o644)
+	os.WriteFile(filepath.Join(d, "c.thrift"), []byte(xIDLc), 0o644)
+	notes := filepath.Join(d, "notes.json")
+	sc := map[string]interface{}{}
+	for k, v := range xc.Script {
+		sc[k] = v
+	}
+	sc["notes"] = notes
+	sb, _ := json.Marshal(sc)
+	args := []string{"-g", "go"}
+	if xc.Second {
+		args = append(args, "-g", "fastgo")
+	}
+	args = append(args, "-r", "-o", filepath.Join(d, "out"), "-p", "plugsim="+a.Plug+":k=v,flag")
+	if xc.Limit != "" {
+		args = append(args, "--plugin-time-limit", xc.Limit)
+	}
+	args = append(args, "a.thrift")
+	ctx, cancel := context.WithTimeout(context.Background(), 60*time.Second)
+	defer cancel()
+	cmd := exec.CommandContext(ctx, a.Real, args...)
+	cmd.Dir = d
+	cmd.Env = []string{"PATH=/usr/bin:/bin", "HOME=" + d, "PLUGSIM_SCRIPT=" + string(sb)}
+	if compress {
+		cmd.Env = append(cmd.Env, "THRIFTGO_PLUGIN_COMPRESS_INCLUDE=1")
+	}
+	var so, se bytes.Buffer
+	cmd.Stdout, cmd.Stderr = &so, &se
+	t0 := time.Now()
+	err := cmd.Run()
+	wall := time.Since(t0)
+	if ctx.Err() != nil {
+		return xOutcome{}, fmt.Errorf("real thriftgo did not end within 60s")
+	}
+	o := xOutcome{ExitZero: err == nil, Detail: clip(so.String()+se.String(), 300)}
+	for _, f := range []string{"plug/notes.txt", "plug/more.txt"} {
+		if _, err := os.Stat(filepath.Join(d, "out", f)); err == nil {
+			o.PluginFile = append(o.PluginFile, f)
+		}
+	}
+	sort.Strings(o.PluginFile)
+	// was the plugin killed?  it records its pid at start and "done" just before exiting
+	var n struct {
+		Pid  int  `json:"pid"`
+		Done bool `json:"done"`
+	}
+	if b, err := os.ReadFile(notes); err == nil {
+		json.Unmarshal(b, &n)
+	}
+	if !n.Done {
+		// the plugin did not reach its own exit: it was killed (possibly before it could even
+		// record its pid, on a loaded machine); if the pid is known the process must be gone
+		if n.Pid > 0 {
+			time.Sleep(50 * time.Millisecond)
+			if syscall.Kill(n.Pid, 0) == nil {
+				time.Sleep(300 * time.Millisecond)
+				if syscall.Kill(n.Pid, 0) == nil {
+					b, _ := os.ReadFile(fmt.Sprintf("/proc/%d/stat", n.Pid))
+					if !strings.Contains(string(b), ") Z ") {
+						return o, fmt.Errorf("plugin pid %d is still running after thriftgo ended (wall %v)", n.Pid, wall)
+					}
+				}
+			}
+		}
+		o.Killed = true
+	}
+	return o, nil
+}
+
+func xSim(a *artefacts, xc xCase, compress bool) (xOutcome, error) {
+	c := &c11Case{Prog: "xcheck", Cwd: "/work", Main: "a.thrift", Cfg: config{Backend: "go", Rec: true}, Seed: 1, Limit: xc.Limit, Compress: compress,
+		Files: map[string][]byte{"/work/a.thrift": []byte(xIDL), "/work/b.thrift": []byte(xIDLb), "/work/c.thrift": []byte(xIDLc)}}
+	if xc.Second {
+		c.Second = &config{Backend: "fastgo"}
+	}
+	sc := map[string]interface{}{"decode": true, "out_prefix": "$OUT"}
+	for k, v := range xc.Script {
+		sc[k] = v
+	}
+	if _, ok := sc["read_stdin"]; ok {
+		sc["decode"] = false
+		sc["out_prefix"] = ""
+	}
+	c.Plugins = []c11Plugin{{Name: "plugsim", ByPath: true, Opts: "k=v,flag", Script: sc, Version: "v0.4.2", Kind: xc.Name}}
+	var cc c11Case
+	if err := fromDoc(toDoc(c), &cc); err != nil {
+		return xOutcome{}, err
+	}
+	var wr *worldRun
+	var sp *simrt.Spec = cc.spec()
+	wr = runWorld(a, sp)
+	if wr.Res == nil {
+		return xOutcome{}, fmt.Errorf("simulated run failed: %v", wr.Err)
+	}
+	o := xOutcome{ExitZero: wr.Res.Exit == 0, Detail: clip(wr.Stdout+wr.Stderr, 300)}
+	for _, f := range []string{"plug/notes.txt", "plug/more.txt"} {
+		if _, ok := wr.Res.Disk["/work/out/"+f]; ok {
+			o.PluginFile = append(o.PluginFile, f)
+		}
+	}
+	sort.Strings(o.PluginFile)
+	for _, p := range wr.Res.Procs {
+		if p.Killed {
+			o.Killed = true
+		}
+	}
+	return o, nil
+}
+
 func c11CrossCheck(a *artefacts, tier string, seed uint64) (bool, int, string) {
-	return true, 0, "real plugin binary not available in this build; cross-check skipped"
+	if a.Plug == "" {
+		return true, 0, "real plugin binary could not be built; cross-check skipped"
+	}
+	cases := c11xCases()
+	if tier == "quick" {
+		// the slow cases cost real seconds; keep one of them in the quick tier
+		var q []xCase
+		for _, c := range cases {
+			if c.Name == "slow-beyond-limit-after" || c.Name == "no-limit" {
+				continue
+			}
+			q = append(q, c)
+		}
+		cases = q
+	}
+	type res struct {
+		name string
+		err  error
+		r, s xOutcome
+	}
+	out := make([]res, len(cases)*2)
+	parallelMap(len(cases)*2, func(i int) {
+		xc := cases[i/2]
+		compress := i%2 == 1
+		r, err := xReal(a, xc, compress)
+		if err != nil {
+			out[i] = res{name: xc.Name, err: err}
+			return
+		}
+		s, err := xSim(a, xc, compress)
+		out[i] = res{name: fmt.Sprintf("%s(compress=%v)", xc.Name, compress), err: err, r: r, s: s}
+	})
+	for _, o := range out {
+		if o.err != nil {
+			return false, len(out), fmt.Sprintf("%s: %v", o.name, o.err)
+		}
+		if o.r.key() != o.s.key() {
+			return false, len(out), fmt.Sprintf("%s: real {%s} vs simulated {%s}; real output: %s; simulated output: %s", o.name, o.r.key(), o.s.key(), o.r.Detail, o.s.Detail)
+		}
+	}
+	return true, len(out), fmt.Sprintf("%d scripts x {compression off,on}: real and simulated runs agree on exit status, contributed files and kill", len(cases))
 }
